@@ -33,6 +33,9 @@ type batchCfg struct {
 	Purge    int     // 0 none, 1 purge while items are pending (worker saturated by gated items), 2 purges racing the AddAll calls
 	Singles  int     // single jobs mixed in
 	NoReader bool    // nobody reads the stream; Drain() is used instead
+	Gen      bool    // the worker has a job id generator
+	NoID     bool    // every third batch item is submitted without an id
+	LateRead bool    // the stream is only read after Wait returned (its buffer must hold every outcome)
 }
 
 func (c batchCfg) String() string {
@@ -63,6 +66,18 @@ func drawBatch(r *Rng, big bool) batchCfg {
 	}
 	c.Singles = r.Intn(3)
 	c.NoReader = r.Chance(15)
+	c.Gen = r.Chance(30)
+	c.NoID = r.Chance(40)
+	if r.Chance(12) && !c.Gated {
+		// a batch larger than any plausible fixed buffer, read only after Wait
+		c.Sizes[0] = Pick(r, 257, 300, 1025)
+		outs := make([]int, c.Sizes[0])
+		for i := range outs {
+			outs[i] = Pick(r, 0, 1, 1)
+		}
+		c.Out[0] = outs
+		c.LateRead, c.NoReader, c.Purge, c.Reject = true, false, 0, 0
+	}
 	return c
 }
 
@@ -86,7 +101,12 @@ func epBatch(c *RunCtx, cfg batchCfg) *Result {
 	ended := false
 	out := RunBubble(c.T, func(bid string) {
 		gate := make(chan struct{})
-		s := NewSubject(cfg.WK, k.Work, cfg.Conc)
+		var genCount atomic.Int32
+		wcfg := []any{cfg.Conc}
+		if cfg.Gen {
+			wcfg = append(wcfg, varmq.WithJobIdGenerator(func() string { return fmt.Sprintf("gen-%d", genCount.Add(1)) }))
+		}
+		s := NewSubject(cfg.WK, k.Work, wcfg...)
 		q := s.Bind(cfg.QK, nil)
 		// drain the worker-level error channel; every error must belong to a failed job
 		var wErrs []string
@@ -126,6 +146,9 @@ func epBatch(c *RunCtx, cfg batchCfg) *Result {
 			for i := 0; i < sz; i++ {
 				r := k.Recs[idx]
 				r.ID = fmt.Sprintf("b%d-%d", bi, i)
+				if cfg.NoID && i%3 == 1 {
+					r.ID = "" // the id then comes from the worker's generator (or stays empty)
+				}
 				r.InBatch = true
 				r.Out = richOutcome(idx, cfg.Out[bi][i])
 				if cfg.WK == WPlain && cfg.Out[bi][i] == 1 {
@@ -152,7 +175,9 @@ func epBatch(c *RunCtx, cfg batchCfg) *Result {
 			}
 			runs = append(runs, br)
 			// readers
-			if cfg.NoReader && br.b.Drain != nil {
+			if cfg.LateRead {
+				// nothing reads until Wait has returned
+			} else if cfg.NoReader && br.b.Drain != nil {
 				br.b.Drain()
 			} else {
 				if br.b.Results != nil {
@@ -181,6 +206,19 @@ func epBatch(c *RunCtx, cfg batchCfg) *Result {
 				defer rwg.Done()
 				br.b.Wait()
 				br.waitRet.Store(e.Ev(fmt.Sprintf("batch%d.wait.ret", bi)))
+				if cfg.LateRead {
+					if br.b.Results != nil {
+						for r := range br.b.Results {
+							br.results = append(br.results, r)
+						}
+					}
+					if br.b.Errs != nil {
+						for er := range br.b.Errs {
+							br.errs = append(br.errs, er)
+						}
+					}
+					br.closed.Store(true)
+				}
 				if p := br.b.NumPending(); p != 0 {
 					e.Fail("C08", "pending-after-wait", "", fmt.Sprintf("%s: batch %d NumPending=%d right after Wait returned", cfg, bi, p))
 				}
@@ -219,6 +257,9 @@ func epBatch(c *RunCtx, cfg batchCfg) *Result {
 					det := fmt.Sprintf("%s: %d jobs executing at the gated quiescent point, %d accepted, limit %d: expected %d (pending=%d processing=%d)", cfg, got, acc, cfg.Conc, want, s.W.NumPending(), s.W.NumProcessing())
 					if got < want {
 						e.Fail("C03", "no-progress-at-quiescence", "batch", det)
+						// nothing can happen any more without a further call: the accepted items that are not
+						// executing now are never invoked in the execution in which the gates stay shut
+						e.Fail("C01", "not-invoked-at-quiescence", "batch", det)
 					} else {
 						e.Fail("C02", "more-in-flight-than-model", "batch", det)
 					}
@@ -264,6 +305,7 @@ func epBatch(c *RunCtx, cfg batchCfg) *Result {
 			return
 		}
 		// per batch: one result per executed item, tagged with its id
+		seenGen := map[string]bool{}
 		for bi, br := range runs {
 			var executed, failed []int
 			for i := br.lo; i < br.hi; i++ {
@@ -277,8 +319,24 @@ func epBatch(c *RunCtx, cfg batchCfg) *Result {
 					if r.Out.Err != nil || r.Out.Panic != nil {
 						failed = append(failed, i)
 					}
-					if id, _ := r.SeenID.Load().(string); id != "g:"+r.ID {
-						e.Fail("C07", "batch-id", "", fmt.Sprintf("%s: item %d ran with id %q, want %q", cfg, i, id, "g:"+r.ID))
+					id, _ := r.SeenID.Load().(string)
+					switch {
+					case r.ID != "":
+						if id != "g:"+r.ID {
+							e.Fail("C07", "batch-id", "", fmt.Sprintf("%s: item %d ran with id %q, want %q", cfg, i, id, "g:"+r.ID))
+							e.Fail("C08", "result-tag", "explicit", fmt.Sprintf("%s: item %d (submitted with id %q) ran as %q", cfg, i, r.ID, id))
+						}
+					case cfg.Gen:
+						if !strings.HasPrefix(id, "g:gen-") || seenGen[id] {
+							e.Fail("C07", "batch-id", "generator", fmt.Sprintf("%s: item %d submitted without an id ran as %q, want a fresh generator value with the g: prefix", cfg, i, id))
+							e.Fail("C08", "result-tag", "generator", fmt.Sprintf("%s: item %d submitted without an id ran as %q (duplicate or not generated)", cfg, i, id))
+						}
+						seenGen[id] = true
+					default:
+						if id != "g:" {
+							e.Fail("C07", "batch-id", "empty", fmt.Sprintf("%s: item %d submitted without an id ran as %q, want %q", cfg, i, id, "g:"))
+							e.Fail("C08", "result-tag", "empty", fmt.Sprintf("%s: item %d submitted without an id ran as %q", cfg, i, id))
+						}
 					}
 				}
 				if br.rejected && runs != 0 {
@@ -298,9 +356,12 @@ func epBatch(c *RunCtx, cfg batchCfg) *Result {
 					// match outcome
 					var rec *JobRec
 					for i := br.lo; i < br.hi; i++ {
-						if "g:"+k.Recs[i].ID == r.JobId {
+						if sid, _ := k.Recs[i].SeenID.Load().(string); sid == r.JobId && (k.Recs[i].ID != "" || cfg.Gen) {
 							rec = k.Recs[i]
 						}
+					}
+					if rec == nil && r.JobId == "g:" && cfg.NoID && !cfg.Gen {
+						continue // items without id and without generator are indistinguishable by tag
 					}
 					if rec == nil {
 						e.Fail("C08", "foreign-result", "", fmt.Sprintf("%s: batch %d delivered a result tagged %q which is none of its items", cfg, bi, r.JobId))
@@ -321,8 +382,23 @@ func epBatch(c *RunCtx, cfg batchCfg) *Result {
 						}
 					}
 				}
+				anon := 0
 				for _, i := range executed {
-					id := "g:" + k.Recs[i].ID
+					if k.Recs[i].ID == "" && !cfg.Gen {
+						anon++
+					}
+				}
+				if anon > 0 || got["g:"] > 0 {
+					if got["g:"] != anon {
+						e.Fail("C08", "result-count", "anonymous", fmt.Sprintf("%s: batch %d delivered %d results tagged g:, %d items without id executed", cfg, bi, got["g:"], anon))
+					}
+					delete(got, "g:")
+				}
+				for _, i := range executed {
+					id, _ := k.Recs[i].SeenID.Load().(string)
+					if k.Recs[i].ID == "" && !cfg.Gen {
+						continue
+					}
 					if got[id] != 1 {
 						e.Fail("C08", "result-count", fmt.Sprint(got[id]), fmt.Sprintf("%s: batch %d delivered %d results for executed item %s (all: %v)", cfg, bi, got[id], id, got))
 					}
@@ -461,6 +537,10 @@ type outCfg struct {
 	Paced  bool
 	Reads  int
 	Helper int // 0 none, 1 Func, 2 ErrFunc, 3 ResultFunc
+	// PauseMid: in the paced variant every second job is gated, the worker is paused while it runs and
+	// the job then finishes (fails) under the paused worker: its error must still be offered on Errs()
+	PauseMid bool
+	EmptyOpt bool // submissions without an id pass WithJobId("") explicitly
 }
 
 func (c outCfg) String() string {
@@ -477,6 +557,8 @@ func drawOut(r *Rng) outCfg {
 	if r.Chance(15) {
 		c.Helper = 1 + r.Intn(3)
 	}
+	c.PauseMid = c.Paced && r.Bool()
+	c.EmptyOpt = r.Bool()
 	return c
 }
 
@@ -521,10 +603,47 @@ func epOutcome(c *RunCtx, cfg outCfg) *Result {
 			if r.Out.Err != nil || r.Out.Panic != nil {
 				fails++
 			}
-			k.Add(q, i)
+			var gate chan struct{}
+			if cfg.PauseMid && i%2 == 0 {
+				gate = make(chan struct{})
+				r.Gate = gate
+			}
+			if r.ID == "" && cfg.EmptyOpt {
+				// an explicit empty id option is a no-op: the generator (or the empty default) still applies
+				r.Submitted = true
+				r.AddCall = e.Ev(fmt.Sprintf("add%d.call", i))
+				h, ok := q.add(i, r.Prio, varmq.WithJobId(""))
+				r.OK = ok
+				if ok && h != nil {
+					r.SetHandle(h)
+				}
+				r.AddRet = e.Ev(fmt.Sprintf("add%d.ret", i), ok)
+			} else {
+				k.Add(q, i)
+			}
 			if r.H == nil {
 				e.Fail("C07", "rejected", "", "add rejected on an open queue")
 				continue
+			}
+			if gate != nil {
+				synctest.Wait() // the job is executing
+				switch i % 3 {
+				case 0:
+					s.W.Pause()
+					close(gate)
+				case 1:
+					done := make(chan struct{})
+					go func() { s.W.PauseAndWait(); close(done) }()
+					synctest.Wait()
+					close(gate)
+					<-done
+				default:
+					s.W.Pause()
+					close(gate)
+				}
+				time.Sleep(10 * time.Microsecond)
+				synctest.Wait()
+				s.W.Resume()
 			}
 			// concurrent readers of the same handle
 			for x := 0; x < cfg.Reads; x++ {
@@ -700,6 +819,7 @@ func epHelper(c *RunCtx, e *Env, cfg outCfg) *Result {
 var batchFuncs = []string{"groupJob", "GroupJob", "WgCounter", "Response", "AddAll", "Close", "markClosed", "initPoolNode", "processNextJob", "sendError", "sendResult", "NewErrWorker", "NewResultWorker", "NewWorker", "WithSafe", "Purge"}
 
 func runC08(c *RunCtx) {
+	purgeBurstPrograms(c, 16, 64)
 	for v := 0; v < c.Q(96, 600); v++ {
 		c.Program(fmt.Sprintf("batch/%d", v), func(p *Prog) {
 			cfg := drawBatch(p.Rng, c.Thorough() && v%20 == 0)
